@@ -21,7 +21,24 @@ type demuxConn struct {
 	stopped <-chan struct{}
 }
 
+// closed reports whether the connection has been cancelled or its Demux stopped.
+// Read and Write consult it first, so that once Cancel or Stop has returned they
+// fail even if the other side of the channel happens to be ready as well.
+func (c *demuxConn) closed() bool {
+	select {
+	case <-c.done:
+		return true
+	case <-c.stopped:
+		return true
+	default:
+		return false
+	}
+}
+
 func (c *demuxConn) Read(ctx context.Context) (*Rpc, error) {
+	if c.closed() {
+		return nil, errDemuxConnClosed
+	}
 	select {
 	case <-ctx.Done():
 		return nil, ctx.Err()
@@ -35,6 +52,9 @@ func (c *demuxConn) Read(ctx context.Context) (*Rpc, error) {
 }
 
 func (c *demuxConn) Write(ctx context.Context, rpc *Rpc) error {
+	if c.closed() {
+		return errDemuxConnClosed
+	}
 	select {
 	case <-ctx.Done():
 		return ctx.Err()
